@@ -250,7 +250,7 @@ def run_twin(desc):
             cnt["rounded_twin_skipped_event_on_zero_holding"] += 1
             continue
         placements(base, cnt)
-        reqs += [lc.calc_case(base), lc.calc_case(twin)]
+        reqs += [lc.calc_case(base, front=True), lc.calc_case(twin, front=True)]
         meta.append((base, twin, scale))
     obs = probe().run(reqs)
     for i, (base, twin, scale) in enumerate(meta):
@@ -336,7 +336,7 @@ def run_twin_split_day(desc):
                for tw in (t_pre, t_post) for t in tw if t["kind"] in ("BUY", "SELL")):
             cnt["twin_too_many_digits"] += 1
             continue
-        reqs += [lc.calc_case(base), lc.calc_case(t_pre), lc.calc_case(t_post)]
+        reqs += [lc.calc_case(base, front=True), lc.calc_case(t_pre, front=True), lc.calc_case(t_post, front=True)]
         meta.append(base)
     obs = probe().run(reqs)
     for i, base in enumerate(meta):
@@ -384,7 +384,7 @@ def run_pair(desc):
             # "held" decides (known residue family, reported by C11); not a statement about splits
             cnt["pairs_skipped_event_on_zero_holding_after_nonterminating_pair"] += 1
             continue
-        reqs += [lc.calc_case(base), lc.calc_case(var)]
+        reqs += [lc.calc_case(base, front=True), lc.calc_case(var, front=True)]
         meta.append((base, var, ratio, first))
     obs = probe().run(reqs)
     for i, (base, var, ratio, first) in enumerate(meta):
@@ -413,13 +413,13 @@ def replay(case):
         base = case["txs"]
         t_pre, _ = rescale_to_final_units(base, None, same_day="pre")
         t_post, _ = rescale_to_final_units(base, None, same_day="post")
-        obs = probe().run([lc.calc_case(base), lc.calc_case(t_pre), lc.calc_case(t_post)])
+        obs = probe().run([lc.calc_case(base, front=True), lc.calc_case(t_pre, front=True), lc.calc_case(t_post, front=True)])
         return judge_split_day(base, obs, Counter()), {"base": obs[0]}
     if case.get("op") == "twin":
         twin, scale = rescale_to_final_units(case["txs"], None if case["exactish"] else 18)
-        oa, ob = probe().run([lc.calc_case(case["txs"]), lc.calc_case(twin)])
+        oa, ob = probe().run([lc.calc_case(case["txs"], front=True), lc.calc_case(twin, front=True)])
         return compare_twin(case["txs"], twin, scale, oa, ob, case["exactish"], Counter()), {"base": oa, "twin": ob}
-    oa, ob = probe().run([lc.calc_case(case["txs"]), lc.calc_case(case["variant"])])
+    oa, ob = probe().run([lc.calc_case(case["txs"], front=True), lc.calc_case(case["variant"], front=True)])
     vs = compare_twin(case["txs"], case["variant"], {}, oa, ob, not lc.nonterminating_split(case["variant"]), Counter())
     for x in vs:
         x["signature"] = x["signature"].replace("twin-differs", "split-unsplit-pair-changes-report")
